@@ -425,8 +425,191 @@ static uint64_t model_hash(int remaining)
 	return h;
 }
 
+
+/* ---- section 1: a crowded neighbourhood of the path index ------------------------------------------------------------------
+ * More paths than one neighbourhood of the path index can hold: (mode 0) 40 paths with the same home bucket, (mode 1) one path
+ * for each of 33 consecutive home buckets and then more paths for the first bucket, (mode 2) the same run built backwards.  Adds
+ * may be refused by the configured limit (internal error); whatever was acknowledged exists exactly once: its owner can change
+ * it, nobody can add it again, get lists it once; whatever was refused does not exist; removing everything empties the set. */
+static void find_paths_for_bucket(uint32_t bucket, unsigned order, int want, char out[][16], int *n, int *cursor)
+{
+	while (*n < want && *cursor < 4000000) {
+		char cand[16];
+		snprintf(cand, sizeof(cand), "k%d", (*cursor)++);
+		if (path_bucket(cand, order) == bucket) {
+			strcpy(out[(*n)++], cand);
+		}
+	}
+}
+
+static void run_crowded(void)
+{
+	int mode = xp_choose(3, XP_SCENARIO, "layout");
+	int who = xp_choose(3, XP_SCENARIO, "who-adds"); /* 0 all by A, 1 alternating A / B, 2 all by B (websocket) */
+	int churn = xp_choose(2, XP_SCENARIO, "remove-and-re-add-half-way");
+	static const char *const MODEN[] = {"40 paths with one home bucket", "33 consecutive home buckets, then more paths for the first", "the same run added from the last bucket to the first"};
+	static char cp[64][16];
+	int ncp = 0;
+	unsigned order = CONFIG_ELEMENT_TABLE_ORDER;
+	uint32_t size = 1u << order;
+	uint32_t home = path_bucket("k0", order);
+	int cursor = 0;
+	if (mode == 0) {
+		find_paths_for_bucket(home, order, 40, cp, &ncp, &cursor);
+	} else {
+		for (int b = 0; b < 33 && b < (int)size; b++) {
+			int want = ncp + 1, cur = 0;
+			find_paths_for_bucket((home + (uint32_t)(mode == 1 ? b : 32 - b)) % size, order, want, cp, &ncp, &cur);
+		}
+		uint32_t first = mode == 1 ? home : (home + 32) % size;
+		int cur = 0, skip = 1; /* further paths for the bucket added first (its first path is already in the list) */
+		while (ncp < 40 && cur < 4000000) {
+			char cand[16];
+			snprintf(cand, sizeof(cand), "k%d", cur++);
+			if (path_bucket(cand, order) == first) {
+				if (skip > 0) {
+					skip--;
+					continue;
+				}
+				strcpy(cp[ncp++], cand);
+			}
+		}
+	}
+	static char what[300];
+	snprintf(what, sizeof(what), "%s (%d paths, path index of %u buckets), %s%s", MODEN[mode], ncp, size, who == 0 ? "all added by A" : who == 1 ? "added alternately by A and B" : "all added by B", churn ? ", every second one removed and added again half-way" : "");
+	last_action = what;
+	struct sim_opts o = {0};
+	jx_boot(&o);
+	O = jx_open(CL_RAW);
+	conn[A] = jx_open(PKIND[A]);
+	conn[B] = jx_open(PKIND[B]);
+	bool exists[64] = {false};
+	int owner[64];
+	int nexist = 0, nrefused = 0;
+	for (int round = 0; round < (churn ? 2 : 1); round++) {
+		for (int i = 0; i < ncp; i++) {
+			if (round == 1 && (i & 1)) {
+				continue;
+			}
+			int pr = who == 0 ? A : who == 2 ? B : (i & 1) ? B : A;
+			if (round == 1) {
+				/* second round: remove every even path (if it exists) and add it again by the other peer */
+				if (exists[i]) {
+					int f0 = clients[conn[owner[i]]].nmsgs;
+					jx_sendf(conn[owner[i]], "{\"id\":%d,\"method\":\"remove\",\"params\":{\"path\":\"%s\"}}", ++reqid, cp[i]);
+					jx_settle();
+					if (!jx_is_success(jx_find_response_num(conn[owner[i]], reqid, f0))) {
+						fail4("crowded:remove-by-owner-refused", "the owner's remove of %s was refused", cp[i]);
+					}
+					exists[i] = false;
+					nexist--;
+				}
+				pr = pr == A ? B : A;
+			}
+			int f1 = clients[conn[pr]].nmsgs;
+			jx_sendf(conn[pr], "{\"id\":%d,\"method\":\"add\",\"params\":{\"path\":\"%s\",\"value\":%d}}", ++reqid, cp[i], i);
+			jx_settle();
+			struct cl_msg *r = jx_find_response_num(conn[pr], reqid, f1);
+			if (r == NULL) {
+				fail4("crowded:add-unanswered", "add of %s got no answer", cp[i]);
+			}
+			if (r->cls == MC_RESULT) {
+				exists[i] = true;
+				owner[i] = pr;
+				nexist++;
+			} else if (jx_error_code(r) == -32603) {
+				nrefused++; /* the configured limit of the path index */
+			} else {
+				fail4("crowded:add-of-free-path-refused", "add of the free path %s was refused with something other than the limit's internal error: %.200s", cp[i], r->text);
+			}
+			/* what the answer says must be what the daemon knows */
+			int ow = exists[i] ? owner[i] : pr, other = ow == A ? B : A;
+			int f2 = clients[conn[ow]].nmsgs;
+			jx_sendf(conn[ow], "{\"id\":%d,\"method\":\"change\",\"params\":{\"path\":\"%s\",\"value\":%d}}", ++reqid, cp[i], 1000 + i);
+			jx_settle();
+			bool ch = jx_is_success(jx_find_response_num(conn[ow], reqid, f2));
+			if (ch != exists[i]) {
+				char key[120];
+				snprintf(key, sizeof(key), "crowded:%s", exists[i] ? "acknowledged-element-unknown-to-its-owner" : "refused-element-exists");
+				fail4(key, "add of %s (path #%d) was answered with %s, but the adder's change is answered with %s", cp[i], i, exists[i] ? "success" : "an error", ch ? "success" : "an error");
+			}
+			int f3 = clients[conn[other]].nmsgs;
+			jx_sendf(conn[other], "{\"id\":%d,\"method\":\"add\",\"params\":{\"path\":\"%s\",\"value\":-1}}", ++reqid, cp[i]);
+			jx_settle();
+			struct cl_msg *r2 = jx_find_response_num(conn[other], reqid, f3);
+			if (exists[i] && r2 != NULL && r2->cls == MC_RESULT) {
+				fail4("crowded:path-added-twice", "%s exists (owner %s) and another peer's add of the same path was acknowledged: a path names two elements", cp[i], PN[ow]);
+			}
+			if (!exists[i] && r2 != NULL && r2->cls == MC_RESULT) {
+				/* the limit refused the first attempt; this one found room (entries may have been moved meanwhile): it exists now */
+				exists[i] = true;
+				owner[i] = other;
+				nexist++;
+			}
+		}
+	}
+	/* earlier elements are all still what they were: get lists each acknowledged path once with its last value */
+	int fg = clients[O].nmsgs;
+	jx_sendf(O, "{\"id\":\"g\",\"method\":\"get\",\"params\":{}}");
+	jx_settle();
+	struct cl_msg *g = jx_find_response_str(O, "g", fg);
+	if (g == NULL || g->cls != MC_RESULT) {
+		fail4("crowded:get-failed", "get was not answered with a result");
+	}
+	int listed[64] = {0};
+	const cJSON *arr = cJSON_GetObjectItemCaseSensitive(g->json, "result");
+	for (const cJSON *it = arr ? arr->child : NULL; it != NULL; it = it->next) {
+		const cJSON *pa = cJSON_GetObjectItemCaseSensitive(it, "path");
+		for (int i = 0; i < ncp; i++) {
+			if (cJSON_IsString(pa) && strcmp(pa->valuestring, cp[i]) == 0) {
+				listed[i]++;
+			}
+		}
+	}
+	for (int i = 0; i < ncp; i++) {
+		if (listed[i] != (exists[i] ? 1 : 0)) {
+			char key[120];
+			snprintf(key, sizeof(key), "crowded:get-lists-path-%s", listed[i] > 1 ? "twice" : listed[i] == 1 ? "that-was-refused" : "not-at-all");
+			fail4(key, "%s (path #%d, %s) is listed %d time(s) by get", cp[i], i, exists[i] ? "exists" : "does not exist", listed[i]);
+		}
+	}
+	/* every owner can still change and then remove each of its elements; afterwards nothing is left */
+	for (int i = 0; i < ncp; i++) {
+		if (!exists[i]) {
+			continue;
+		}
+		int f4 = clients[conn[owner[i]]].nmsgs;
+		jx_sendf(conn[owner[i]], "{\"id\":%d,\"method\":\"change\",\"params\":{\"path\":\"%s\",\"value\":%d}}", ++reqid, cp[i], 2000 + i);
+		int idc = reqid;
+		jx_sendf(conn[owner[i]], "{\"id\":%d,\"method\":\"remove\",\"params\":{\"path\":\"%s\"}}", ++reqid, cp[i]);
+		jx_settle();
+		if (!jx_is_success(jx_find_response_num(conn[owner[i]], idc, f4)) || !jx_is_success(jx_find_response_num(conn[owner[i]], reqid, f4))) {
+			fail4("crowded:element-lost-later", "%s (path #%d) was acknowledged and never removed, but its owner's final change / remove is refused: a later insertion disturbed it", cp[i], i);
+		}
+	}
+	fg = clients[O].nmsgs;
+	jx_sendf(O, "{\"id\":\"g2\",\"method\":\"get\",\"params\":{}}");
+	jx_settle();
+	g = jx_find_response_str(O, "g2", fg);
+	if (g == NULL || g->cls != MC_RESULT || cJSON_GetArraySize(cJSON_GetObjectItemCaseSensitive(g->json, "result")) != 0) {
+		fail4("crowded:elements-left-after-removing-all", "after every owner removed everything get still lists elements: %.300s", g ? g->text : "(no answer)");
+	}
+	xp_count("adds_acknowledged", nexist);
+	xp_count("adds_refused_by_the_limit", nrefused);
+	jx_close_all();
+	jx_check_idle_baseline("crowded:left-behind:");
+	xp_nontrivial();
+	xp_transition();
+	xp_outcome((uint64_t)nexist * 100 + (uint64_t)nrefused);
+	xp_state(hash_mix((uint64_t)mode * 100 + (uint64_t)who * 10 + (uint64_t)churn, 31));
+}
+
 static void run(void)
 {
+	if (xp_param("section", 0) == 1) {
+		run_crowded();
+		return;
+	}
 	int depth = (int)xp_param("depth", 3);
 	int set = (int)xp_param("pathset", 0);
 	choose_paths(set);
@@ -510,6 +693,6 @@ const struct driver drv_c04 = {
     .name = "c04",
     .property = "C04",
     .run = run,
-    .rule = "every sequence of actions up to the depth bound over 2 peers (raw, websocket) x 7 operations (add state / method / fetch-only state, remove, change, set, call) x 3 paths, plus 'the peer leaves and reconnects' (every path it owned is free again); optionally (stalled_sub) in the presence of a second fetch-all subscriber that has stopped reading and whose write buffer is full, for three path universes: {empty, 'a', 'A'}, {'ab', a 400-byte path, a 2-byte UTF-8 path}, {three paths with the same home bucket of the path index}; values rotate through 6 JSON values; accepted set/call are answered by the owner at once; oracle after every step: response verdict == reference map verdict, observer's fetch-all replica == map (existence, type, value), get == map; non-trivial = executions that ran to full depth",
+    .rule = "every sequence of actions up to the depth bound over 2 peers (raw, websocket) x 7 operations (add state / method / fetch-only state, remove, change, set, call) x 3 paths, plus 'the peer leaves and reconnects' (every path it owned is free again); optionally (stalled_sub) in the presence of a second fetch-all subscriber that has stopped reading and whose write buffer is full, for three path universes: {empty, 'a', 'A'}, {'ab', a 400-byte path, a 2-byte UTF-8 path}, {three paths with the same home bucket of the path index}; values rotate through 6 JSON values; accepted set/call are answered by the owner at once; oracle after every step: response verdict == reference map verdict, observer's fetch-all replica == map (existence, type, value), get == map; non-trivial = executions that ran to full depth | section 1 (crowded neighbourhood): 40 paths for one home bucket / for 33 consecutive home buckets (forwards and backwards) x {all by A, alternating, all by B} x {once, every second path removed and re-added by the other peer}: every acknowledged add is known to its owner, cannot be added again, is listed once by get and survives all later insertions; every refused one does not exist; removing everything leaves nothing",
     .assumptions = "only success/error (and the internal-error code for refusals by a configured limit) are compared, never message texts|an accepted set/call is recognised by its delivery to the owner",
 };
